@@ -1423,7 +1423,7 @@ def do_call(apps, call, log, environ=None, path=None):
     hdrs = sorted([k, v] for k, v in st.get('h', []))
     w_status = fr.get('w_end', fr['w_status'])
     nobody = fr['method'] == 'HEAD' or w_status in (204, 304) or 100 <= w_status < 200
-    rec = dict(kind='response', tok=tok, status=st.get('s'), hdrs=hdrs, body=body_out.decode('latin1'),
+    rec = dict(kind='response', tok=tok, path=fr['path'], status=st.get('s'), hdrs=hdrs, body=body_out.decode('latin1'),
                accept_json=(env.get('HTTP_ACCEPT') or '').startswith('application/json'),
                w_final=fr['w_final'], w_status=w_status, w_body='' if nobody else fr['w_body'], nobody=nobody,
                w_location=fr.get('w_location'), w_allow=fr.get('w_allow'),
@@ -2010,7 +2010,8 @@ def arrangement_failure(case, obs):
                     if ck != rec['w_cookies']:
                         return 'thread %d: call %s cookies %s, handler set %s' % (ti, tok, ck, rec['w_cookies'])
                 elif rec['w_final'] == 'critical':
-                    if tok not in rec['body'] and not rec.get('nobody'):
+                    # (the last-resort page quotes PATH_INFO only)
+                    if rec.get('path', tok) not in rec['body'] and not rec.get('nobody'):
                         return 'thread %d: last-resort page of call %s does not mention its own request' % (ti, tok)
                 elif not rec.get('nobody'):
                     ctype = ' '.join(h[1] for h in rec['hdrs'] if h[0] == 'Content-Type')
